@@ -52,7 +52,7 @@ def unrat(s):
 # ------------------------------------------------------------------------------------------------------- generators
 
 def gen_quat(rng):
-    cls = rng.choice(['unit', 'scaled', 'near180', 'axis', 'random', 'smallangle', 'nearunit'])
+    cls = rng.choice(['unit', 'scaled', 'near180', 'axis', 'random', 'smallangle', 'nearunit', 'lattice'])
     if cls == 'axis':
         q = rng.choice([[1, 0, 0, 0], [0, 1, 0, 0], [0, 0, 1, 0], [0, 0, 0, 1], [-1, 0, 0, 0],
                         [math.sqrt(0.5), math.sqrt(0.5), 0, 0], [math.sqrt(0.5), 0, -math.sqrt(0.5), 0],
@@ -71,6 +71,13 @@ def gen_quat(rng):
             q = [1.0, q[1] * eps, q[2] * eps, q[3] * eps]
             n = math.sqrt(sum(a * a for a in q))
             q = [a / n for a in q]
+        elif cls == 'lattice':
+            # hand-written, NOT normalised quaternions with exactly representable components ([1,1,0,0], [1,0,0,1], [0,2,0,0] ...):
+            # any shortcut keyed on a component being exactly 1.0 or 0.0 must still be a rotation
+            while True:
+                q = [float(rng.choice([0, 0, 1, 1, -1, 0.5, 2, 10])) for _ in range(4)]
+                if any(q):
+                    break
         elif cls == 'nearunit':
             # almost-unit quaternions as they occur in practice: read from 6-decimal text, rounded through float32,
             # or carrying a relative norm error between 1e-13 and 1e-4 (any norm shortcut must still be a rotation)
